@@ -569,6 +569,7 @@ fn run_history<const N: usize>(ctx: &mut Ctx, lines: &[String], out: &mut impl W
         if t.is_empty() || t[0].starts_with('#') {
             continue;
         }
+        PROGRESS.fetch_add(1, std::sync::atomic::Ordering::Relaxed);
         let r = catch_unwind(AssertUnwindSafe(|| step::<N>(ctx, &mut gs, &t)));
         match r {
             Ok(Out::Line(res, h)) => match h {
@@ -593,10 +594,32 @@ fn run_history<const N: usize>(ctx: &mut Ctx, lines: &[String], out: &mut impl W
         }
     }
     writeln!(out, "END").unwrap();
+    out.flush().unwrap();
 }
+
+static PROGRESS: std::sync::atomic::AtomicU64 = std::sync::atomic::AtomicU64::new(0);
 
 fn main() {
     std::panic::set_hook(Box::new(|_| {}));
+    // watchdog: a single call that does not return within 30 s is reported as non-termination
+    std::thread::spawn(|| {
+        let mut last = 0;
+        let mut stuck = 0;
+        loop {
+            std::thread::sleep(std::time::Duration::from_secs(1));
+            let now = PROGRESS.load(std::sync::atomic::Ordering::Relaxed);
+            if now == last {
+                stuck += 1;
+            } else {
+                stuck = 0;
+                last = now;
+            }
+            if stuck >= 30 && now > 0 {
+                eprintln!("WATCHDOG: no progress for 30 s (a call does not terminate)");
+                std::process::exit(3);
+            }
+        }
+    });
     let base = if std::path::Path::new("/dev/shm").is_dir() {
         PathBuf::from("/dev/shm")
     } else {
